@@ -9,11 +9,17 @@ use std::cell::Cell;
 thread_local! {
     static SEED: Cell<Option<u64>> = const { Cell::new(None) };
     static CALLS: Cell<u64> = const { Cell::new(0) };
+    static MONO_CALLS: Cell<u64> = const { Cell::new(0) };
+    static CLOCK_JUMPS: Cell<u64> = const { Cell::new(0) };
 }
 
 pub fn set_seed(seed: Option<u64>) {
     SEED.with(|s| s.set(seed));
     CALLS.with(|c| c.set(0));
+    if seed.is_some() {
+        MONO_CALLS.with(|c| c.set(0));
+        CLOCK_JUMPS.with(|c| c.set(0));
+    }
 }
 
 /// The process id of the simulated process (one per entropy seed), None outside a simulated process.
@@ -30,6 +36,41 @@ pub fn sim_realtime_secs() -> Option<i64> {
         Ok(Some(s)) => Some(1_700_000_000 + (crate::rng::derive(s, "realtime", 0) % 100_000_000) as i64),
         _ => None,
     }
+}
+
+/// The monotonic clock of the simulated process, in nanoseconds: a millisecond per look at it - and, in one
+/// simulated process out of three, one jump of 30 s at a seed-chosen look (the process was suspended, the
+/// laptop slept, the container was frozen). Code that decides anything from elapsed real time will decide
+/// differently in such a process.
+pub fn sim_monotonic_nanos() -> Option<u64> {
+    let seed = match SEED.try_with(|s| s.get()) {
+        Ok(Some(s)) => s,
+        _ => return None,
+    };
+    let n = MONO_CALLS.with(|c| {
+        let n = c.get();
+        c.set(n + 1);
+        n
+    });
+    let plan = crate::rng::derive(seed, "monotonic.jump", 0);
+    let mut t = 1_000_000_000_000u64 + n * 1_000_000;
+    if plan % 3 == 0 && n > (plan >> 8) % 6 {
+        if n == (plan >> 8) % 6 + 1 {
+            CLOCK_JUMPS.with(|c| c.set(c.get() + 1));
+        }
+        t += 30_000_000_000;
+    }
+    Some(t)
+}
+
+/// how often the simulated process has looked at its monotonic clock (evidence)
+pub fn monotonic_reads() -> u64 {
+    MONO_CALLS.with(|c| c.get())
+}
+
+/// how often a simulated clock jump has been observed by the simulated process (evidence)
+pub fn clock_jumps() -> u64 {
+    CLOCK_JUMPS.with(|c| c.get())
 }
 
 pub fn calls() -> u64 {
